@@ -426,6 +426,33 @@ def canons_in(T, v):
     return out
 
 
+def object_helpers(T, v):
+    """Free pure helper functions called in v with a whole IR object as argument: {name: fn facts}."""
+    out = {}
+    for c in vt.calls_in(v):
+        f = c.get('f')
+        if c.get('recv') is None and f in T.pure_fns and len(T.pure_fns[f]['params']) == len(c.get('args', [])):
+            for a in c.get('args', []):
+                ca = T.canon(a)
+                if ca is not None and ca[1] == [] and ca[0] in OWNERS and ca[0] != 'Id':
+                    out[f] = T.pure_fns[f]
+    return out
+
+
+def canons_in_deep(T, v, depth=0):
+    """canons_in, also looking through free helper functions that are handed a whole IR object."""
+    out = canons_in(T, v)
+    if depth < 4:
+        for c in vt.calls_in(v):
+            fn = object_helpers(T, c).get(c.get('f')) if c.get('recv') is None else None
+            if fn:
+                env = dict(zip([p['name'] for p in fn['params']], c.get('args', [])))
+                for body in [fn['tail']] + [r['v'] for r in fn.get('returns', []) if r.get('v')]:
+                    if body is not None:
+                        out.extend(canons_in_deep(T, subst(body, env), depth + 1))
+    return out
+
+
 def caller_env_deep(fns, g, depth=3):
     """Bind g's parameters to caller arguments when every in-backend caller passes the same value; values that are
     themselves parameters of the (single) caller are resolved recursively."""
